@@ -20,6 +20,8 @@ type node struct {
 	level  int // 1 = lowest /Pages level
 	kids   []*node
 	leaves []int // indices into doc.Pages (only at level 1)
+	before []int // unbalanced trees: page leaves that are direct kids of an inner node, in front of its subtrees ...
+	after  []int // ... and behind them
 	all    []int // every leaf below
 	parent *node
 }
@@ -34,7 +36,7 @@ func num(f float64) any {
 func box(b [4]float64) Arr { return Arr{num(b[0]), num(b[1]), num(b[2]), num(b[3])} }
 
 // buildTree arranges the page indices under `depth` levels of /Pages nodes.
-func buildTree(id string, idx []int, level, fanout int, parent *node) *node {
+func buildTree(id string, idx []int, level, fanout int, parent *node, unbalanced bool) *node {
 	n := &node{id: id, level: level, all: idx, parent: parent}
 	if level <= 1 {
 		n.leaves = idx
@@ -42,6 +44,11 @@ func buildTree(id string, idx []int, level, fanout int, parent *node) *node {
 	}
 	if fanout < 1 {
 		fanout = 1
+	}
+	if unbalanced && len(idx) >= 3 {
+		// the first and the last page of this subtree hang directly below this node: leaves at different depths
+		n.before, n.after = idx[:1], idx[len(idx)-1:]
+		idx = idx[1 : len(idx)-1]
 	}
 	chunk := (len(idx) + fanout - 1) / fanout
 	if chunk < 1 {
@@ -53,7 +60,7 @@ func buildTree(id string, idx []int, level, fanout int, parent *node) *node {
 		if e > len(idx) {
 			e = len(idx)
 		}
-		n.kids = append(n.kids, buildTree(fmt.Sprintf("%s.%d", id, k), idx[s:e], level-1, fanout, n))
+		n.kids = append(n.kids, buildTree(fmt.Sprintf("%s.%d", id, k), idx[s:e], level-1, fanout, n, unbalanced))
 		k++
 	}
 	return n
@@ -72,7 +79,7 @@ func lower(doc Doc, l Layout) []symObj {
 	for i := range idx {
 		idx[i] = i
 	}
-	root := buildTree("node:r", idx, depth, l.FanOut, nil)
+	root := buildTree("node:r", idx, depth, l.FanOut, nil, l.Unbalanced)
 
 	add("catalog", Dict{{"Type", Name("Catalog")}, {"Pages", Ref(root.id)}})
 
@@ -127,6 +134,21 @@ func lower(doc Doc, l Layout) []symObj {
 	for i := range doc.Pages {
 		leafAttr[i] = attrs{box: bl == 0, res: rl == 0, rot: ol == 0 && (doc.Pages[i].Rotate != 0 || l.Shadow)}
 	}
+	// a page that hangs directly below an inner node has no ancestor of a lower level: an attribute that lives
+	// further down the tree must stand on the page itself
+	for _, n := range nodes {
+		for _, i := range append(append([]int{}, n.before...), n.after...) {
+			if bl > 0 && bl < n.level {
+				leafAttr[i].box = true
+			}
+			if rl > 0 && rl < n.level {
+				leafAttr[i].res = true
+			}
+			if ol > 0 && ol < n.level {
+				leafAttr[i].rot = true
+			}
+		}
+	}
 	// a leaf whose value differs from the inherited one overrides it
 	for _, n := range nodes {
 		a := nodeAttr[n.id]
@@ -152,10 +174,16 @@ func lower(doc Doc, l Layout) []symObj {
 			d = d.with("Parent", Ref(n.parent.id))
 		}
 		kids := Arr{}
+		for _, i := range n.before {
+			kids = append(kids, Ref(fmt.Sprintf("page:%d", doc.Pages[i].ID)))
+		}
 		for _, k := range n.kids {
 			kids = append(kids, Ref(k.id))
 		}
 		for _, i := range n.leaves {
+			kids = append(kids, Ref(fmt.Sprintf("page:%d", doc.Pages[i].ID)))
+		}
+		for _, i := range n.after {
 			kids = append(kids, Ref(fmt.Sprintf("page:%d", doc.Pages[i].ID)))
 		}
 		d = d.with("Kids", kids).with("Count", Int(len(n.all)))
@@ -205,7 +233,7 @@ func lower(doc Doc, l Layout) []symObj {
 	var leafParent func(n *node, m map[int]string)
 	parentOf := map[int]string{}
 	leafParent = func(n *node, m map[int]string) {
-		for _, i := range n.leaves {
+		for _, i := range append(append(append([]int{}, n.leaves...), n.before...), n.after...) {
 			m[i] = n.id
 		}
 		for _, k := range n.kids {
@@ -254,7 +282,7 @@ func lower(doc Doc, l Layout) []symObj {
 				chain = l.Filters[streamNo%len(l.Filters)]
 			}
 			streamNo++
-			add(cid, &Stream{Data: part, Chain: chain, Pred: l.Predictor, Array1: l.FilterArray1})
+			add(cid, &Stream{Data: part, Chain: chain, Pred: l.Predictor, Pred2: l.Predictor && l.TIFFPred, Array1: l.FilterArray1})
 			refs = append(refs, Ref(cid))
 		}
 		switch {
